@@ -21,6 +21,11 @@ FB = [
     # getters produced by a factory: the function's own __name__ is not the name of the method on its owner
     dict(site="c1.fb_heading", owner="c1", meth="get_heading", fn_name="_read", key=None, hint=float, nt="/components/c1/heading", topic="DoubleTopic"),
     dict(site="robot.fb_volts", owner="robot", meth="volts", fn_name="_read", key=None, hint=float, nt="/robot/volts", topic="DoubleTopic"),
+    # only the *leading* get_ is removed
+    dict(site="c1.fb_widget", owner="c1", meth="get_widget_count", key=None, hint=int, nt="/components/c1/widget_count", topic="IntegerTopic"),
+    dict(site="robot.fb_budget", owner="robot", meth="get_budget_left", key=None, hint=None, nt="/robot/budget_left", topic=None),
+    # variable-length homogeneous tuple hint: an array topic of the element type, whatever the values look like
+    dict(site="c2.fb_tup", owner="c2", meth="get_tup", key=None, hint=tuple[float, ...], nt="/components/c2/tup", topic="DoubleArrayTopic"),
 ]
 
 
@@ -44,6 +49,11 @@ def _mk_getter(H, spec, state):
             v = c.boolean(f"v_{site}_{n}")
         elif h is str:
             v = f"{site}#{n}"
+        elif h == tuple[float, ...]:
+            # python ints (and, every other time, nothing at all) under a float-array hint
+            v = (n, n + 1) if n % 2 else ()
+            H.log.add("fbret", site, list(v))
+            return v
         else:
             # a pre-allocated buffer updated in place and returned every time (same object, new contents)
             buf = state.setdefault(("buf", id(self)), [0.0, 0.0])
